@@ -247,11 +247,25 @@ def harness_replay(behaviours, workdir, name, nkeys, extra_args=()):
     cmd = [HARNESS, "replay", "--in", inp, "--out", outp, "--nkeys", str(nkeys),
            "--scratch", os.path.join(workdir, f"{name}-trees")] + list(extra_args)
     r = subprocess.run(cmd, stdout=subprocess.PIPE, stderr=subprocess.PIPE, text=True)
+    if r.returncode == 4:
+        m = re.search(r"HANG beh=(\d+) step=(\d+)", r.stderr)
+        if m:
+            raise HarnessHang(int(m.group(1)), int(m.group(2)))
     if r.returncode != 0:
         log(r.stderr[-3000:])
         raise ToolError(f"harness replay failed rc={r.returncode}")
     summary = json.loads(r.stdout.strip().splitlines()[-1])
     return outp, summary
+
+
+class HarnessHang(Exception):
+    """An operation of the code under test did not return (90 s of CPU time): input line of
+    the behaviour (0-based) and step (1-based, 0 = creating / opening the tree)."""
+
+    def __init__(self, beh, step):
+        super().__init__(f"behaviour {beh} step {step} did not return")
+        self.beh = beh
+        self.step = step
 
 
 def split_trace(path, workdir, name, chunks):
